@@ -36,6 +36,30 @@ pub struct PipeState {
     pub n_write_calls: u64,
     pub n_read_calls: u64,
     pub shutdown: bool,
+    /// C20: called at the entry of every `poll_write` ("write") / `poll_flush` ("flush"), i.e. while the connection task
+    /// is between its lock sections; the driver uses it to run handle operations exactly there
+    pub hook: Hook,
+}
+
+/// Callback slot of the transport (not `Debug`, hence the wrapper).
+#[derive(Default)]
+pub struct Hook(pub Option<Box<dyn FnMut(&'static str)>>);
+
+impl std::fmt::Debug for Hook {
+    fn fmt(&self, f: &mut std::fmt::Formatter<'_>) -> std::fmt::Result {
+        write!(f, "Hook({})", if self.0.is_some() { "set" } else { "-" })
+    }
+}
+
+fn run_hook(cell: &Rc<RefCell<PipeState>>, which: &'static str) {
+    let h = cell.borrow_mut().hook.0.take();
+    if let Some(mut f) = h {
+        f(which);
+        let mut s = cell.borrow_mut();
+        if s.hook.0.is_none() {
+            s.hook.0 = Some(f);
+        }
+    }
 }
 
 #[derive(Clone)]
@@ -57,6 +81,7 @@ impl Pipe {
             n_write_calls: 0,
             n_read_calls: 0,
             shutdown: false,
+            hook: Hook(None),
         })))
     }
     /// The peer sends bytes towards the endpoint.
@@ -132,6 +157,7 @@ impl AsyncRead for Pipe {
 
 impl AsyncWrite for Pipe {
     fn poll_write(self: Pin<&mut Self>, cx: &mut Context<'_>, data: &[u8]) -> Poll<io::Result<usize>> {
+        run_hook(&self.0, "write");
         let mut s = self.0.borrow_mut();
         s.n_write_calls += 1;
         let mut n = data.len();
@@ -157,6 +183,7 @@ impl AsyncWrite for Pipe {
         Poll::Ready(Ok(n))
     }
     fn poll_flush(self: Pin<&mut Self>, _cx: &mut Context<'_>) -> Poll<io::Result<()>> {
+        run_hook(&self.0, "flush");
         self.0.borrow_mut().n_flush += 1;
         Poll::Ready(Ok(()))
     }
